@@ -101,6 +101,10 @@ def lift_bool(v):
     raise TypeError('cannot lift %r to Bool' % (v,))
 
 
+def _isinf(o):
+    return isinstance(o, float) and math.isinf(o)
+
+
 def _isintlike(v):
     return isinstance(v, (I, int)) and not isinstance(v, bool) or (_np is not None and isinstance(v, _np.integer))
 
@@ -260,15 +264,23 @@ class R:
         return B(self.t != lift_real(o))
 
     def __lt__(self, o):
+        if _isinf(o):
+            return o > 0
         return B(self.t < lift_real(o))
 
     def __le__(self, o):
+        if _isinf(o):
+            return o > 0
         return B(self.t <= lift_real(o))
 
     def __gt__(self, o):
+        if _isinf(o):
+            return o < 0
         return B(self.t > lift_real(o))
 
     def __ge__(self, o):
+        if _isinf(o):
+            return o < 0
         return B(self.t >= lift_real(o))
     __hash__ = None
 
@@ -1099,6 +1111,15 @@ class Explorer:
         if r == 'unsat':
             self.stats.proved[label] = self.stats.proved.get(label, 0) + 1
             return True
+        if r == 'unknown' and isinstance(cond, bool):
+            # the obligation is concretely false on this path but the solver could not produce a model of the path
+            # condition in time: hand an empty model to the replay, which then runs on default concrete inputs
+            cex = {'label': label, 'model': {}, 'decisions': [], 'info': (info or '') + ' [no solver model; replayed on default inputs]',
+                   'pc_size': len(self.pc)}
+            self.stats.q_unknown -= 1
+            self.stats.cex.append(cex)
+            self.path_cex.append(cex)
+            return False
         if r == 'unknown':
             if soft:
                 # floating-point obligation undecided within the budget: inconclusive-FP (recorded, not a verdict)
